@@ -79,6 +79,7 @@ def gen_traces(args):
             thr = (int(rng.integers(1, 8)), 8)
         if rng.random() < 0.15:
             kw["progress_bar"] = True            # the reporting wrapper around the selection loop (TQDM_DISABLE=1 silences it)
+        kw = core.reduce_kwargs(cls, kw)      # documented defaults are left out about half of the time
         try:
             obj = cls(**kw)
         except Exception:
